@@ -38,8 +38,8 @@ def _nice_fraction(x: float) -> Fraction:
     if x == 0:
         return Fraction(0)
     f = Fraction(x)
-    g = f.limit_denominator(1 << 20)
-    if abs(float(g) - x) <= 1e-12 * max(1.0, abs(x)):
+    g = f.limit_denominator(1 << 12)
+    if abs(float(g) - x) <= 4e-15 * max(1.0, abs(x)) * max(1, g.denominator):
         return g
     return f
 
@@ -250,6 +250,17 @@ class SNum:
                             raise TypeError('symx: complex pin')
                         mm = mono_mul(m_rest, m2)
                         q2 = q * _nice_fraction(c2.real)
+                        u2 = unit
+                        if unit == 'rad':
+                            rpi = _nice_fraction(float(q) * c2.real / _PI)
+                            if rpi.denominator <= (1 << 12):
+                                q2, u2 = rpi, 'pi'
+                        if u2 != unit:
+                            if not mm:
+                                phase *= _unit_phase(q2, u2)
+                            else:
+                                na[(mm, u2)] = na.get((mm, u2), 0) + q2
+                            continue
                         if not mm:
                             phase *= _unit_phase(q2, unit)
                         else:
@@ -425,7 +436,7 @@ class SNum:
                 raise TypeError('symx: exp with symbolic real part leaves the ring (Escape)')
             x = c.imag
             qpi = _nice_fraction(x / _PI)
-            if qpi.denominator <= (1 << 20):
+            if qpi.denominator <= (1 << 12):
                 atom, q = (mono, 'pi'), qpi
             else:
                 atom, q = (mono, 'rad'), _nice_fraction(x)
